@@ -38,7 +38,7 @@ PROPS = {
                 "source term. Non-trivial: a step exists / the program takes at least one step; distinct by case text. Rejected programs and "
                 "out-of-fuel programs are counted but inconclusive.",
         "trusted_base": TB_COMMON + [
-            "modelled, not verified: src/evaluator.rs is mirrored by hand in coq/Model/Eval.v and tied to the code by the exhaustive single-step stream; num-bigint arithmetic is modelled by Z; Spec/EvalEnv.v (reference interpreter) is an executable specification, not proved equivalent to cbv",
+            "modelled, not verified: src/evaluator.rs is mirrored by hand in coq/Model/Eval.v and tied to the code by the exhaustive single-step stream; num-bigint arithmetic is modelled by Z; Spec/EvalEnv.v (reference interpreter, written without substitution) is proved to agree with the evaluator model on closed hole-free programs whose groups are single value definitions (Proofs/EvalEnvProofs.v interpreters_agree); on general groups it is an executable specification compared by running",
         ],
         "assumptions": ["programs that exceed the step/recursion fuel or the per-case time limit are inconclusive",
                         "stack exhaustion of the real evaluator on deep recursion is outside the model"],
@@ -337,10 +337,13 @@ MANIFEST_TEXT = {
                 "and redex rules (step_iff_cbv), deterministic, with exact Z arithmetic and truncating division; recursive and mutually "
                 "recursive groups are run inside Coq. The model is tied to src/evaluator.rs by comparing single steps on all small terms "
                 "and values of generated programs, which are also compared with an independent environment-based interpreter run on the "
-                "parsed source.",
+                "parsed source. That interpreter (environments, closures, a store of cells; no substitution or shifting) and the model "
+                "are proved to agree - terminate together with the same observable value or the same stuck reason, diverge together - on "
+                "every closed hole-free program whose groups are single value definitions, recursive functions included "
+                "(interpreters_agree, ground_agreement, eval_env_mono); multi-definition and computed groups are compared by running.",
         "design_ref": "DESIGN.md section 4, C02",
         "note": "Trusted: Coq kernel, extraction, OCaml driver, Rust harness. The model/code tie is differential. The reference "
-                "interpreter is an executable spec (not proved equivalent to cbv). BigInt is modelled by Z.",
+                "interpreter is proved equivalent to the model on the single-value-definition fragment and is an executable spec beyond it. BigInt is modelled by Z.",
         "technique": "Coq proof that the evaluator model equals an evaluation-context CBV semantics + exhaustive single-step differential testing + 3-way program evaluation",
     },
     "C01": {
@@ -383,7 +386,12 @@ MANIFEST_TEXT = {
                 "recovery and the memo table). Acceptance iff sentence, the tree with left-associated chains "
                 "and honoured parentheses, full consumption and names are decided by running the extracted executable parser model and an "
                 "Earley recogniser of grammar.y against the implementation on all short token sequences, grammar derivations and their "
-                "single-token edits. Partial proof: completeness of the model (every sentence is accepted) and the tree shape are not theorems.",
+                "single-token edits. Tree shape, proved (Proofs/ReassocProofs.v): on every tree the parser model produces, the three "
+                "re-association passes equal a three-line specification - flatten the right spine of unparenthesised nodes of one kind, "
+                "re-associate every operand on its own, fold to the left - so application, `*` `/` and `+` `-` chains are left-associated, "
+                "a parenthesised node is one operand, and the in-order sequence of leaves and operators is unchanged "
+                "(parser_reassociate_spec, parser_tree_wf, reassoc_left / reassoc_paren). Partial proof: completeness of the model (every "
+                "sentence is accepted) and uniqueness of derivations are not theorems.",
         "design_ref": "DESIGN.md section 4, C07",
         "note": "Trusted: Coq kernel, the skeleton/grammar translator, extraction, OCaml driver + Earley oracle, harness.",
         "technique": "Coq proof that the parser model accepts only sentences of the generated grammar + generated skeleton-vs-grammar obligations (vm_compute) + extracted packrat model differential testing + Earley completeness oracle",
@@ -448,8 +456,13 @@ MANIFEST_TEXT = {
     "C15": {
         "text": "Proved for the listing model: the lines shown are exactly those intersecting the range, numbered from 1, and marked sections "
                 "stay inside the trimmed line; the model's rendering (gutter, overline column counted in characters) is compared bytewise "
-                "with the implementation's. Node ranges and diagnostic excerpts are validated on the implementation with the extracted "
-                "parser/scope specification as re-parser. One genuine violation is a recorded finding (D17).",
+                "with the implementation's. Proved for the parser model (Proofs/RangeProofs.v, an invariant of every parse call and of the "
+                "memo table): every node of an accepted parse carries the byte range from the first byte of its first token to the last "
+                "byte of its last token, children tile the parent's token interval as the production prescribes, parentheses widen only "
+                "the parenthesised node, the root spans the input (parsed_tree_layout). That the implementation's ranges are these, and the "
+                "diagnostics' choice of node and excerpt, are validated on the implementation with the extracted "
+                "parser/scope specification as re-parser, including one minimal program per typing diagnostic and per scoping fault "
+                "(every binder form bound twice, every position of an unbound name) with the exact text to be marked. One genuine violation is a recorded finding (D17).",
         "design_ref": "DESIGN.md section 4, C15; section 5 D10, D11, D17",
         "note": "Type diagnostics are required to mark the text of SOME subexpression node of the program (the exact node depends on the checker's rule).",
         "technique": "Coq proof on the listing model + rendering differential testing + re-parse-in-scope oracle on every node range + excerpt parse-back on single-fault programs",
@@ -484,8 +497,11 @@ MANIFEST_TEXT = {
                 "substitution); a weak-head normal form is never a group; the conversion test never refutes t = t and its success implies "
                 "definitional equality; the conversion test is symmetric (convb_sym) and, whenever both sides have normal forms, answers true "
                 "exactly when the normal forms with function annotations erased are equal (convb_iff_nf); a normal form is definitionally "
-                "equal to its term (nf_sound). Coherence on ground programs (whnf literal = run-time literal), success on reducts and the "
-                "agreement of unify with this mirror are decided on generated programs and on all small well-typed pairs.",
+                "equal to its term (nf_sound). The store-passing mirror of normalize_weak_head / unify that is compared with the code case by "
+                "case (Model B whnfB / unifyB) is proved to BE this mirror on hole-free terms - store untouched, same weak-head normal form "
+                "at the same fuel, same verdict including the syntactic shortcut (whnfB_whnf, unifyB_convb, unifyB_iff_nf). Coherence on "
+                "ground programs (whnf literal = run-time literal), success on reducts and the agreement of the implementation's unify with "
+                "the mirrors are decided on generated programs and on all small well-typed pairs.",
         "design_ref": "DESIGN.md section 4, C06",
         "note": "Proof about the mirror of normalize_weak_head/unify on hole-free terms; the mirror is tied to the code by correspondence.",
         "technique": "Coq proofs about definitional equality (step_in_conv, convb_sym, convb_iff_nf, nf_sound, convb_refl, whnf_never_let) + differential and metamorphic testing of normalize_weak_head/unify",
@@ -505,7 +521,11 @@ MANIFEST_TEXT = {
     "C18": {
         "text": "Proved: what the depth offsets of context entries mean (C18_lookup_param / _under_binder / _group: the `index + 1 - "
                 "offset` law gives a parameter's type lifted over its own binder and a group member's annotation and definition as "
-                "written), and that the normaliser / conversion mirrors are sound under an arbitrary context. The implementation is then "
+                "written), that the normaliser / conversion mirrors are sound under an arbitrary context, and that inserting any block of "
+                "entries anywhere into a context commutes with normalisation and the conversion test at every fuel, so that a closed term "
+                "behaves under any context as in the empty one (whnf_insert, convb_insert, whnf_closed_under; hole-free terms); the verified "
+                "checker itself gives the same verdict and the shifted type under the extended context, and a term that does not mention "
+                "the inserted block checks without it (infer_insert, infer_closed_under, infer_strengthen). The implementation is then "
                 "compared with those mirrors under random contexts mixing parameters and definitions, and type_check of an open body under "
                 "the peeled context is compared with the closed program (verdict, re-wrapped type, contexts entry by entry before/after, "
                 "including rejections part-way).",
